@@ -20,6 +20,8 @@ thread's tasks, re-bases every `task(beg,end)` to thread-local row numbers, and 
   bounds (the model's arrays read 0 out of range, so this is a separate statement).
 * `local_sweep_eq_row_sweep`, `local_solve_eq_row_solve`   a task executed on the thread-local arrays performs exactly
   the row updates `gsRow A rhs` / `iluRow lower A D` for the rows of that task in order.
+* `local_loads_eq_row_loads`   the literal loops load the same locations of `x` in the same order as the row programs of
+  the load/store semantics of `C09.lean`.
 * `literal_exec_is_exec`   every event sequence the skeleton admits over the literal tables, read through `ord`, is an
   execution in the sense of `C09.lean` over the literal task table.
 * `gs_parallel_sweep_literal_eq_serial`, `ilu_sptr_solve_literal_eq_rowwise`, `ilu_sptr_solve_literal_eq_serial`,
@@ -215,6 +217,29 @@ theorem local_solve_eq_row_solve (lower : Bool) (A : CRS K) (Dv : Vec K) (ln : A
     rw [constructorLoc_eq, specTables_getD A (!lower) Dv _ tid (by rw [constructorLit_length]; exact htid)]
   rw [hL]
   exact iluLocTask_spec lower A Dv _ lev (by rw [constructorLit_getD_length ln nt tid htid]; exact hlev) x
+
+/-- **The literal loops load the same locations of `x` in the same order as the row programs of the load/store
+semantics** (`Model/ScheduleMicro.lean`: `gsProg`, `iluProg`), so the theorems `C09.*_any_load_store_interleaving_*`
+speak about the memory accesses of the loops over the thread-local arrays as well (the arrays themselves are
+read-only during `sweep`/`solve`). -/
+theorem local_loads_eq_row_loads (lower : Bool) (A : CRS K) (rhs Dv : Vec K) (hasD : Bool) (ln : Array Nat × Nat)
+    (nt tid : Nat) (htid : tid < nt) :
+    let L := (constructorLoc A hasD Dv ln nt).getD tid Loc.empty
+    ∀ r, r < ((constructorLit ln nt).getD tid []).flatten.length →
+      gsLocLoads L r = (gsProg A rhs).loads (L.ord.getD r 0)
+      ∧ iluLocLoads L r = (iluProg lower A Dv).loads (L.ord.getD r 0) := by
+  intro L r hr
+  have h := ((local_copy_faithful A hasD Dv ln nt tid htid).2.2.2.2.2.2 r hr).1
+  have hc : L.cols r = (L.row r).map Prod.fst := by
+    unfold Loc.cols Loc.row
+    rw [List.map_map]
+    rfl
+  unfold gsLocLoads iluLocLoads
+  rw [hc]
+  exact ⟨by rw [h]; rfl, by rw [h]; rfl⟩
+
+example : gsLocLoads ((gsConstructorLoc true (⟨5, #[[(0, 1), (3, 1)], [(1, 1)], [(1, 1), (2, 1)], [(3, 1)], [(4, 1), (1, 2)]]⟩ : CRS Int) 4).getD 0 Loc.empty) 1
+    = [1] := by decide +kernel
 
 /-- non-vacuity: thread 0, task 1 of the 5×5 example is local row 1 = row 2 of `A`: `x[2] = rhs[2] − x[1]` -/
 example : gsLocTask ((gsConstructorLoc true (⟨5, #[[(0, 1), (3, 1)], [(1, 1)], [(1, 1), (2, 1)], [(3, 1)], [(4, 1), (1, 2)]]⟩ : CRS Int) 4).getD 0 Loc.empty)
